@@ -461,36 +461,43 @@ def v2Fold (cfg : Cfg) (cs norm : Bool) (c : Nat) : Nat × Nat :=
     let c := if !cs then cfg.U.lower c else c
     (cls, if norm then cfg.norm c else c)
 
-def phase2 (cfg : Cfg) (cs norm fwd : Bool) (win : Array Nat) (p : Text) : P2 := Id.run do
+/-- One iteration of the phase-2 loop over the window (written as a function of the state so that
+    invariants can be stated per step: Lemmas/V2Decides.lean). -/
+def phase2Step (cfg : Cfg) (cs norm fwd : Bool) (p : Text) (st : P2) (c0 : Nat) : P2 :=
   let m := p.size
   let pchar0 := p.getD 0 0
-  let mut st : P2 := { pchar := pchar0, prevClass := cfg.sch.initClass }
-  for c0 in win do
-    if st.stop then
-      -- after `break` the remaining cells keep whatever they held: the functional layer
-      -- records them as 0 and never reads them (M = 1 returns straight after the loop)
-      st := { st with T := st.T.push c0, B := st.B.push 0, H0 := st.H0.push 0, C0 := st.C0.push 0 }
-      continue
+  if st.stop then
+    -- after `break` the remaining cells keep whatever they held: the functional layer
+    -- records them as 0 and never reads them (M = 1 returns straight after the loop)
+    { st with T := st.T.push c0, B := st.B.push 0, H0 := st.H0.push 0, C0 := st.C0.push 0 }
+  else
     let off := st.T.size
-    let (cls, c) := v2Fold cfg cs norm c0
+    let fc := v2Fold cfg cs norm c0
+    let cls := fc.1
+    let c := fc.2
     let bonus := bonusFor cfg.sch st.prevClass cls
-    let mut s := { st with T := st.T.push c, B := st.B.push bonus, prevClass := cls }
-    if c == s.pchar then
-      if s.pidx < m then
-        s := { s with F := s.F.push off, pidx := s.pidx + 1, pchar := p.getD (min (s.pidx + 1) (m - 1)) 0 }
-      s := { s with lastIdx := off }
+    let s0 : P2 := { st with T := st.T.push c, B := st.B.push bonus, prevClass := cls }
+    let s1 : P2 :=
+      if c == s0.pchar then
+        let s := if s0.pidx < m then
+            { s0 with F := s0.F.push off, pidx := s0.pidx + 1, pchar := p.getD (min (s0.pidx + 1) (m - 1)) 0 }
+          else s0
+        { s with lastIdx := off }
+      else s0
     if c == pchar0 then
       let score := w16 (scoreMatch + w16 (bonus * bonusFirstCharMultiplier))
-      s := { s with H0 := s.H0.push score, C0 := s.C0.push 1, inGap := false, prevH0 := score }
-      if m == 1 && ((fwd && score > s.maxScore) || (!fwd && score ≥ s.maxScore)) then
-        s := { s with maxScore := score, maxScorePos := off }
-        if fwd && bonus ≥ bonusBoundary then s := { s with stop := true }
+      let s2 : P2 := { s1 with H0 := s1.H0.push score, C0 := s1.C0.push 1, inGap := false, prevH0 := score }
+      if m == 1 && ((fwd && score > s2.maxScore) || (!fwd && score ≥ s2.maxScore)) then
+        let s3 : P2 := { s2 with maxScore := score, maxScorePos := off }
+        if fwd && bonus ≥ bonusBoundary then { s3 with stop := true } else s3
+      else s2
     else
-      let h := if s.inGap then max16 (w16 (s.prevH0 + scoreGapExtension)) 0
-               else max16 (w16 (s.prevH0 + scoreGapStart)) 0
-      s := { s with H0 := s.H0.push h, C0 := s.C0.push 0, inGap := true, prevH0 := h }
-    st := s
-  return st
+      let h := if s1.inGap then max16 (w16 (s1.prevH0 + scoreGapExtension)) 0
+               else max16 (w16 (s1.prevH0 + scoreGapStart)) 0
+      { s1 with H0 := s1.H0.push h, C0 := s1.C0.push 0, inGap := true, prevH0 := h }
+
+def phase2 (cfg : Cfg) (cs norm fwd : Bool) (win : Array Nat) (p : Text) : P2 :=
+  win.toList.foldl (phase2Step cfg cs norm fwd p) { pchar := p.getD 0 0, prevClass := cfg.sch.initClass }
 
 /-- One row of phase 3. `prevH`/`prevC` are row `i-1`, all rows have `width` cells for the
     columns `f0 .. lastIdx`; cells that the Go code does not write are 0 here. -/
